@@ -6,6 +6,7 @@ import ast
 
 from ..interp import Absent, Callee, Frame, UNKNOWN
 from ..model import AnalysisError, norm
+from . import tables
 from .common import BASE_ERROR, Ctx, escape_rule, fkey, short
 
 SEND = "aiomysensors.gateway.Gateway.send"
@@ -20,6 +21,10 @@ def run(ctx: Ctx, chk) -> None:
     chk.run_rule(not_a_message, ctx)
     chk.run_rule(outcome1, ctx)
     chk.run_rule(key1, ctx)
+    from . import sleepbuf as _sb
+
+    chk.run_rule(_sb.buffer_once, ctx)
+    chk.run_rule(lambda c, k: tables.dispatch_total_rule(c, k, "outgoing"), ctx)
     from . import c08
 
     chk.run_rule(lambda c, k: c08.write_then_forget(c, k, loss_only=True), ctx)
